@@ -79,8 +79,15 @@ def stateStr (s : State) : String :=
   s!"mc={optNat s.mutualHeight} uc={optNat s.uniHeight} co={closingStr s.closing} " ++
   s!"csh={optNat s.closingSweptHeight} osh={optNat s.ourSweptHeight} sb={bit s.sawBlock} sf={bit s.sawForget}"
 
+/-- the views other components read: `funding_depth`, `funding_double_spent_depth`, `closing_depth`, `as_chain_state` -/
+def viewStr (s : State) : String :=
+  let cs := match s.chainState with
+    | none => "panic"
+    | some c => s!"{c.currentHeight},{c.fundingDepth},{c.dsDepth},{c.closingDepth}"
+  s!"v={s.fundingDepth},{s.dsDepth},{s.closingDepth};{cs}"
+
 def listenerStr (l : Listener) : String :=
-  stateStr l.st ++ s!" w={setStr l.slot.watches} seen={setStr l.slot.seen}"
+  stateStr l.st ++ s!" w={setStr l.slot.watches} seen={setStr l.slot.seen} " ++ viewStr l.st
 
 /-! ### `monitor` (C14): one monitor with its ListenSlot -/
 
@@ -294,6 +301,11 @@ def prStep (m : PrSt) (toks : List String) : PrSt × String :=
     match nat? h, nat? r with
     | some h, some r => let n := Node.init h (r != 0); ({ n, dead := false }, "ok " ++ nodeStr n)
     | _, _ => (m, "bad-op")
+  -- `init <height> <regtest> <max_channels>`: a node whose policy limits the channel map
+  | ["init", h, r, mc] =>
+    match nat? h, nat? r, nat? mc with
+    | some h, some r, some mc => let n := Node.init h (r != 0) mc; ({ n, dead := false }, "ok " ++ nodeStr n)
+    | _, _, _ => (m, "bad-op")
   | ["new", d] => match nat? d with | some d => fin (newChannel m.n d) | none => (m, "bad-op")
   | ["setup", d, k, t, v, i] =>
     match nat? d, nat? k, nat? t, nat? v, outpoints? i with
